@@ -74,6 +74,13 @@ def make_exception(how, text):
         return _OddError(b'\xff\xfe', 3.5)
     if how == 'bytes_arg':
         return LookupError(b'raw bytes \xff')
+    if how == 'rsocket_app':
+        from rsocket.exceptions import RSocketApplicationError
+        return RSocketApplicationError(text)
+    if how == 'rsocket_rejected':
+        from rsocket.exceptions import RSocketProtocolError
+        from rsocket.error_codes import ErrorCode
+        return RSocketProtocolError(ErrorCode.REJECTED, data=text)
     return AppError(text)
 
 
@@ -443,6 +450,9 @@ def make_handler_class():
         def _lookup(self, method, payload):
             tag = parse_tag(payload)
             iid = tag[0] if tag else None
+            if iid is None and not nb(payload.data) and not nb(payload.metadata):
+                # an empty request payload carries no tag: the plan has at most one such interaction
+                iid = next((i for i, ia in self.scripts.items() if ia.get('empty_req')), None)
             ev = self._rec(method, payload, iid=iid)
             ia = self.scripts.get(iid) if iid is not None else None
             if ia is None:
@@ -682,12 +692,34 @@ def start_interaction(world, ep_name, ia):
             if kind == 'channel' and ia.get('pub') is not None:
                 cpub = make_publisher(world, ep_name, iid, 'requester', 'c', ia['pub'])
 
+            took_n = []  # the collector cancelled after limit_count elements
+
             async def run_awaitable():
                 aw = AwaitableRSocket(ep)
                 rec = lambda cb, **kw: world.rec('sub', ep=ep_name, iid=iid, role='requester', cb=cb, **kw)
                 rec('on_subscribe')
                 try:
-                    if kind == 'stream':
+                    if kind == 'stream' and ia.get('limit_count'):
+                        # CollectorSubscriber used directly: take the first limit_count elements, then cancel
+                        from rsocket.awaitable.collector_subscriber import CollectorSubscriber
+
+                        class RecCollector(CollectorSubscriber):
+                            def on_subscribe(self_, subscription):
+                                class Proxy:
+                                    def request(p, n):
+                                        subscription.request(n)
+
+                                    def cancel(p):
+                                        world.rec('act', ep=ep_name, what='cancel', iid=iid, role='requester')
+                                        took_n.append(True)
+                                        subscription.cancel()
+
+                                super().on_subscribe(Proxy())
+
+                        collector = RecCollector(limit, ia['limit_count'])
+                        ep.request_stream(payload).initial_request_n(limit).subscribe(collector)
+                        values = await collector.run()
+                    elif kind == 'stream':
                         values = await aw.request_stream(payload, limit_rate=limit)
                     else:
                         values = await aw.request_channel(payload, publisher=cpub, limit_rate=limit)
@@ -697,7 +729,8 @@ def start_interaction(world, ep_name, ia):
                 for v in values:
                     if nb(v.data) or nb(v.metadata):
                         rec('on_next', data=nb(v.data), metadata=nb(v.metadata), complete=False)
-                rec('on_complete')
+                if not took_n:
+                    rec('on_complete')
 
             world.loop.create_task(run_awaitable())
         elif kind in ('stream', 'channel'):
